@@ -293,6 +293,7 @@ static void on_alarm(int sig)
 int main(void)
 {
 	char *line;
+	int fail_pending = 0;
 	setvbuf(stdout, NULL, _IOFBF, 1 << 16);
 	signal(SIGALRM, on_alarm);
 	signal(SIGABRT, on_abort);
@@ -304,6 +305,11 @@ int main(void)
 		char *w[10];
 		int n = hc_words(line, w, 10);
 		alarm(30);
+		/* `failnext`: the next request to the base allocator made by the NEXT op line fails */
+		if (n == 1 && !strcmp(w[0], "failnext")) { fail_pending = 1; puts("ok"); goto next; }
+		if (fail_pending && !(n >= 1 && !strcmp(w[0], "talloc")))
+			trk_fail_at = trk_requests + 1;
+		fail_pending = 0;
 		if (n == 1 && !strcmp(w[0], "#case")) { world_reset(); puts("#case"); goto next; }
 		if (n == 1 && !strcmp(w[0], "sizes")) {
 			printf("sizes ## pool=%zu seg=%zu tree=%zu item=%d slab=%zu frag=%zu mp=%zu th=%zu\n",
@@ -569,7 +575,7 @@ int main(void)
 		}
 		puts("bad-op");
 next:
-		;
+		if (!fail_pending) trk_fail_at = 0;
 	}
 	fflush(stdout);
 	return 0;
